@@ -12,7 +12,44 @@ from common import *
 NLOC = 29
 L_X, L_Z, L_F, L_SIMU = 0, 1, 3, 22
 CALC = {0: 'CalcKriging', 1: 'CalcMigrate', 2: 'CalcStatistics', 3: 'CalcAnamTransform', 4: 'CalcSimuTurningBands',
-        5: 'CalcSimuFFT', 6: 'CalcSimpleInterpolation', 7: 'CalcGridToGrid', 8: 'CalcImage'}
+        5: 'CalcSimuFFT', 6: 'CalcSimpleInterpolation', 7: 'CalcGridToGrid', 8: 'CalcImage', 9: 'CalcGlobal',
+        10: 'CalcKrigingFactors', 11: 'CalcSimuPost', 12: 'CalcSimuPartition', 13: 'CalcSimuEden'}
+SOURCE = {'CalcKriging': 'src/Estimation/CalcKriging.cpp', 'CalcMigrate': 'src/Calculators/CalcMigrate.cpp',
+          'CalcStatistics': 'src/Calculators/CalcStatistics.cpp', 'CalcAnamTransform': 'src/Anamorphosis/CalcAnamTransform.cpp',
+          'CalcSimuTurningBands': 'src/Simulation/CalcSimuTurningBands.cpp', 'CalcSimuFFT': 'src/Simulation/CalcSimuFFT.cpp',
+          'CalcSimpleInterpolation': 'src/Estimation/CalcSimpleInterpolation.cpp', 'CalcGridToGrid': 'src/Calculators/CalcGridToGrid.cpp',
+          'CalcImage': 'src/Estimation/CalcImage.cpp', 'CalcGlobal': 'src/Estimation/CalcGlobal.cpp',
+          'CalcKrigingFactors': 'src/Estimation/CalcKrigingFactors.cpp', 'CalcSimuPost': 'src/Calculators/CalcSimuPost.cpp',
+          'CalcSimuPartition': 'src/Simulation/CalcSimuPartition.cpp', 'CalcSimuSubstitution': 'src/Simulation/CalcSimuSubstitution.cpp',
+          'CalcSimuEden': 'src/Simulation/CalcSimuEden.cpp'}
+
+_SRC = {}
+def method_body(path, signature):
+    """body of the C++ function whose definition starts with 'signature' (tiny translator used for the code-version flags)"""
+    key = (path, signature)
+    if key not in _SRC:
+        try: src = open(os.path.join(REPO, path)).read()
+        except OSError: src = ''
+        i = src.find(signature); body = ''
+        if i >= 0:
+            j = src.find('{', i); depth = 0; k = j
+            while k < len(src):
+                if src[k] == '{': depth += 1
+                elif src[k] == '}':
+                    depth -= 1
+                    if depth == 0: break
+                k += 1
+            body = src[j:k + 1]
+        _SRC[key] = body
+    return _SRC[key]
+def source_rb2(calc):
+    """does <calc>::_rollback also clean the temporary variables?"""
+    return 1 if '_cleanVariableDb(2)' in method_body(SOURCE[calc], 'void %s::_rollback()' % calc) else 0
+def source_ver():
+    v = 0
+    if 'setLocatorsByUID(_iuidFactors' in method_body(SOURCE['CalcKrigingFactors'], 'void CalcKrigingFactors::_rollback()'): v |= 1
+    if '_storeInVariableList' in method_body('src/Calculators/ACalcDbToDb.cpp', 'int ACalcDbToDb::_expandInformation('): v |= 2
+    return v
 
 def S(s): return [ord(ch) for ch in s]
 def US(l): return ''.join(chr(x) for x in l)
@@ -87,17 +124,17 @@ class Sc:
         s.nout = cfg.pop('nout', None)          # documented number of new variables (in, out) on success
         s.cfg = dict(est=0, std=0, varz=0, single=-1, dgm=0, xvalid=0, xv_est=0, xv_std=0, xv_varz=0, neigh_only=0, nbneigh=5,
                      matlc=0, mnvar=1, mndim=2, nndim=2, nfex=0, extra_ok=1, iuids=[], locate=0, loctype=-1, nbsimu=1, mode=0,
-                     n=0, has_in=1)
+                     n=0, has_in=1, rb2=0, ver=0)
         s.cfg.update(cfg); s.tags = []
     def impl_case(s):
         return [s.id, s.sub, s.p, s.nc, db_sx(s.dbin), db_sx(s.dbout if not s.alias else s.dbin), s.alias, s.fail_after, s.aux]
-    def name(s): return CALC[s.id]
+    def name(s): return 'CalcSimuSubstitution' if (s.id == 12 and s.sub == 2) else CALC[s.id]
     def clone(s, fail_after):
         import copy
         c = copy.copy(s); c.fail_after = fail_after; return c
 
-MODEL_ND = {0: 2, 1: 3, 2: 2, 3: 2, 4: 2, 5: 1}
-MODEL_NV = {0: 1, 1: 1, 2: 2, 3: 1, 4: 1, 5: 1}
+MODEL_ND = {0: 2, 1: 3, 2: 2, 3: 2, 4: 2, 5: 1, 6: 2, 7: 2}
+MODEL_NV = {0: 1, 1: 1, 2: 2, 3: 1, 4: 1, 5: 1, 6: 1, 7: 1}
 NEIGH_ND = {0: 2, 1: 2, 2: 2, 3: 3, 4: 2, -1: 0}
 
 def kriging_scenarios(rng, quick):
@@ -248,6 +285,8 @@ def simtub_scenarios(rng, quick):
         sc.nc_model = nc; sc.names = ['Sim.z.1', 'Sim.1', 'Sim.z.2']
         return sc
     out.append(mk(cond=False, variant='non-conditional')); out.append(mk(cond=False, gout=False, variant='non-conditional-points'))
+    out.append(mk(cond=False, model=7, variant='non-conditional-unsupported-structure', natural='run'))
+    out.append(mk(cond=True, model=7, variant='conditional-unsupported-structure', natural='run'))
     out.append(mk(cond=True, variant='conditional')); out.append(mk(cond=True, neigh=1, nbsimu=1, variant='conditional'))
     out.append(mk(cond=True, model=1, variant='model-3d', natural='check'))
     out.append(mk(cond=False, nbsimu=0, variant='nbsimu-0', natural='check'))
@@ -322,8 +361,83 @@ def image_scenarios(rng, quick):
     out.append(mk(2, p=[3], variant='smooth-bad-type', natural='check', extra_ok=0))
     return out
 
+def global_scenarios(rng, quick):
+    out = []
+    def mk(sub, ivar0=0, nz=1, variant='std', natural=None, model=0):
+        dbin = point_db(rng, rng.randint(6, 9), 2, nz, 'z'); dbout = grid_db((3, 3)); nc = NC('')
+        sc = Sc(9, sub, [model, ivar0], nc, dbin, dbout, variant=variant, natural=natural, nout=(0, 0), mode=sub, n=ivar0,
+                mnvar=MODEL_NV[model], mndim=MODEL_ND[model], nndim=0)
+        sc.nc_model = nc; sc.names = ['z', 'estim', 'stdev']
+        return sc
+    out.append(mk(0, variant='arithmetic')); out.append(mk(1, variant='kriging'))
+    out.append(mk(1, ivar0=3, variant='target-variable-out-of-range', natural='check'))
+    out.append(mk(0, model=1, variant='model-3d', natural='check'))
+    return out
+
+def krigfac_scenarios(rng, quick):
+    out = []
+    def mk(nfac=2, model=6, neigh=0, est=1, std=1, gout=True, variant='std', natural=None, extra_ok=1, calcul=0, ndisc=0):
+        dbin = point_db(rng, rng.randint(8, 11), 2, nfac, 'pos')
+        dbout = grid_db((3, 3)) if gout else point_db(rng, 4, 2, 0)
+        nc = NC('KD')
+        sc = Sc(10, 0, [calcul, est, std, model, neigh, ndisc], nc, dbin, dbout, variant=variant, natural=natural, est=est, std=std,
+                dgm=(model == 3), mnvar=1, mndim=MODEL_ND[model], nndim=NEIGH_ND[neigh], extra_ok=extra_ok)
+        sc.nc_model = nc; sc.names = ['KD.z1.estim', 'KD.z1.stdev', 'z1.estim']
+        return sc
+    out.append(mk(variant='std')); out.append(mk(nfac=3, std=0, neigh=1, variant='three-factors'))
+    out.append(mk(nfac=1, variant='one-factor'))
+    out.append(mk(model=3, variant='change-support'))
+    out.append(mk(model=3, gout=False, variant='change-support-on-points', natural='preprocess'))
+    out.append(mk(model=0, variant='model-without-anamorphosis', natural='check', extra_ok=0))
+    out.append(mk(model=1, variant='model-3d', natural='check'))
+    out.append(mk(calcul=1, variant='block-without-discretization', natural='check', extra_ok=0))
+    return out
+
+def simupost_scenarios(rng, quick):
+    out = []
+    def mk(sub, names=('S*',), variant='std', natural=None, extra_ok=1, ndim_out=2):
+        dbin = point_db(rng, rng.randint(5, 8), 2, 0)
+        for k in (1, 2): dbin['cols'].append([S('S.%d' % k), rvals(rng, dbin['nech']), -1, 0])
+        dbout = grid_db((3, 3) if ndim_out == 2 else (3,)); nc = NC('Post')
+        sc = Sc(11, sub, [], nc, dbin, dbout if sub == 1 else dbin, alias=(0 if sub == 1 else 1), aux=[S(n) for n in names],
+                variant=variant, natural=natural, nout=((0, 1) if sub == 1 else (1, 0)), mode=sub, n=1, extra_ok=extra_ok)
+        sc.nc_model = nc; sc.names = ['Post.Var1.Mean', 'Var1.Mean', 'Post']; sc.model_aux = [S('Var1.Mean')]
+        return sc
+    out.append(mk(0, variant='in-place')); out.append(mk(1, variant='upscale'))
+    out.append(mk(0, names=('nosuch',), variant='unknown-name', natural='check', extra_ok=0))
+    out.append(mk(1, ndim_out=1, variant='upscale-dbout-1d', natural='check'))
+    return out
+
+def simu1_scenarios(rng, quick):
+    out = []
+    def mk(sub, p0=0, variant='std', natural=None, extra_ok=1):
+        dbout = grid_db((4, 4)); nc = NC('Tess')
+        sc = Sc(12, sub, [p0], nc, grid_db((2, 2)), dbout, variant=variant, natural=natural, nout=(0, 1), nbsimu=1, has_in=0,
+                mnvar=(1 if sub != 2 and p0 >= 0 else 0), mndim=(2 if sub != 2 and p0 >= 0 else 0), nndim=0, extra_ok=extra_ok)
+        sc.nc_model = nc; sc.names = ['Tess', 'Tess.1', 'Tess.2']
+        return sc
+    out.append(mk(0, variant='voronoi')); out.append(mk(1, variant='poisson')); out.append(mk(2, p0=2, variant='substitution'))
+    out.append(mk(0, p0=-1, variant='voronoi-without-model', natural='check', extra_ok=0))
+    return out
+
+def eden_scenarios(rng, quick):
+    out = []
+    def mk(niter=1, nfluids=1, variant='std', natural=None, names=('facies', 'fluid')):
+        n = 16
+        dbout = grid_db((4, 4), [[S('facies'), [dy(1)] * n, -1, 0], [S('fluid'), [dy(1 if i in (0, 5) else 0) for i in range(n)], -1, 0]])
+        nc = NC('Eden')
+        sc = Sc(13, 0, [1, nfluids, niter], nc, grid_db((2, 2)), dbout, aux=[S(x) for x in names], variant=variant, natural=natural,
+                nout=(0, (nfluids + 1 if niter > 1 else 0) + 2), mode=(1 if niter > 1 else 0), n=nfluids, nbsimu=niter, has_in=0,
+                mnvar=0, mndim=0, nndim=0, extra_ok=(1 if names == ('facies', 'fluid') else 0))
+        sc.nc_model = nc; sc.names = ['Eden.Fluid', 'Eden.Date', 'Fluid']
+        return sc
+    out.append(mk(variant='one-iteration')); out.append(mk(niter=2, variant='two-iterations'))
+    out.append(mk(names=('nosuch', 'fluid'), variant='unknown-facies', natural='check'))
+    return out
+
 GENERATORS = [kriging_scenarios, migrate_scenarios, stats_scenarios, anam_scenarios, simtub_scenarios, simfft_scenarios,
-              simpleint_scenarios, g2g_scenarios, image_scenarios]
+              simpleint_scenarios, g2g_scenarios, image_scenarios, global_scenarios, krigfac_scenarios, simupost_scenarios,
+              simu1_scenarios, eden_scenarios]
 
 def expand(rng, base, quick):
     """scenario x prior contents x injected failure"""
@@ -342,12 +456,12 @@ def expand(rng, base, quick):
             chosen = priors
         for pr in chosen:
             s2 = copy.deepcopy(sc)
-            roles = [L_Z] if s2.id not in (4, 5) else [L_Z, L_SIMU]
+            roles = [L_Z] if s2.id not in (4, 5, 12) else [L_Z, L_SIMU]
             prx = []
             for k in pr:
                 if k == 'role': prx += [('role', t) for t in roles]
                 else: prx.append(k)
-            tin = add_prior(rng, s2.dbin, [k for k in prx if not (isinstance(k, tuple) and k[1] == L_Z and s2.id in (0, 2, 3, 4, 6, 7, 8))], s2.names)
+            tin = add_prior(rng, s2.dbin, [k for k in prx if not (isinstance(k, tuple) and k[1] == L_Z and s2.id in (0, 2, 3, 4, 6, 7, 8, 9, 10, 11))], s2.names)
             tout = [] if s2.alias else add_prior(rng, s2.dbout, prx, s2.names)
             s2.tags = sorted(set(tin + tout))
             stages = [-1, 1, 2, 3, 4] if s2.natural is None else [-1]
@@ -438,6 +552,9 @@ def key_of(sc, which, diffs, success):
     if base == 'external-drift' and which == 'in' and ('columns-left' in kinds or 'new-variable-count' in kinds):
         return calc + ':external-drift-expansion-left-in-dbin' 
     ts = [d[1][0] for d in diffs if d[0] == 'roles-changed']
+    if calc == 'CalcKrigingFactors' and which == 'in' and not success:
+        if 'columns-left' in kinds or L_X in ts: return calc + ':change-support-roles-not-restored'
+        if L_Z in ts: return calc + ':factor-locators-not-restored'
     if not success:
         if 'columns-left' in kinds:
             if base == 'single-target': return calc + ':single-target-temp-left'
@@ -461,10 +578,11 @@ def cfg_sx(sc):
     c = sc.cfg
     return [sc.nc_model, int(c['est']), int(c['std']), int(c['varz']), c['single'], int(c['dgm']), int(c['xvalid']), c['xv_est'], c['xv_std'], c['xv_varz'],
             int(c['neigh_only']), c['nbneigh'], c['matlc'], c['mnvar'], c['mndim'], c['nndim'], c['nfex'], int(c['extra_ok']), c['iuids'],
-            int(c['locate']), c['loctype'], c['nbsimu'], c['mode'], c['n'], int(c['has_in'])]
+            int(c['locate']), c['loctype'], c['nbsimu'], c['mode'], c['n'], int(c['has_in']), int(c['rb2']), c['ver']]
 
 EMPTY_DB = [0, 0, 0, [], [[] for _ in range(NLOC)]]
 def model_case(sc, bin_, bout, fs):
+    sc.cfg['rb2'] = source_rb2(sc.name()); sc.cfg['ver'] = source_ver()
     din = model_db(bin_) if sc.cfg['has_in'] else EMPTY_DB
     return [sc.id, cfg_sx(sc), sc.alias, fs, 1000, din, model_db(bout), getattr(sc, 'model_aux', [])]
 
@@ -550,6 +668,8 @@ def run(ctx):
             print('ERROR: harness could not run scenario %s (ret %d)' % (ckey, ret)); sys.exit(3)
         bi, bo, ai, ao = Dump(r[2]), Dump(r[3]), Dump(r[4]), Dump(r[5])
         sc.res = (ret, last, bi, bo, ai, ao)
+        if sc.id == 10:     # krigingFactors: the factors are the Z-locator variables of dbin at the time of the call
+            sc.cfg['iuids'] = list(bi.locs[L_Z]); sc.nout = (0, len(sc.cfg['iuids']) * (sc.cfg['est'] + sc.cfg['std']))
         if sc.id == 1:      # CalcMigrate: the entry points turn names / a locator into uids before the calculator starts
             names = {c[1]: c[0] for c in bi.cols}
             if sc.sub == 2: sc.cfg['iuids'] = list(bi.locs[sc.cfg['loctype']]) if sc.cfg['loctype'] >= 0 else []
